@@ -13,7 +13,7 @@ Proof. intros. by eapply (NoDup_fmap_eq hkey). Qed.
 Lemma track_renew_ok X cfg i n k lt s s' o t :
   Inv cfg s → st_shut s = false → TR X cfg s t →
   srv_renew n k lt s = (s', o) →
-  TR X cfg s' (track_step cfg i (ERenew n k lt) o t).
+  TR X cfg s' (track_step0 cfg i (ERenew n k lt) o t).
 Proof.
   intros HI Hsh HT Hr. unfold srv_renew in Hr. simpl. destruct (Z.leb_spec lt 0) as [Hle|Hgt].
   { injection Hr as <- <-. simpl. destruct (Z.leb_spec lt 0); [|lia]. flagsolve. }
